@@ -31,7 +31,8 @@ LEVEL_TEXT = ("Kernel-checked on the specification side: a graph accepted by the
               "every conditioning set, and reports u, v as independent given pa(u) whenever v is a non-adjacent non-descendant of u - so a "
               "separating set exists for exactly the non-adjacent pairs, which is what makes the PC skeleton phase exact; the model of "
               "PDAG.to_dag returns an acyclic edge set for every partially directed graph on which it succeeds (C12_toDag_acyclic, by an "
-              "invariant over the removal loop). The implementation is decided by "
+              "invariant over the removal loop); the orientation rules R1-R3 hold in every acyclic member of the class, so an edge "
+              "they orient is compelled (C12_meek_rules_sound). The implementation is decided by "
               "exhaustive differential runs against that spec: skeleton, separating sets (each must d-separate its pair in the Lean "
               "d-separation spec), CPDAG (directed and undirected parts) and DAG output of every PC variant for every ground-truth DAG up to "
               "4/5 nodes under 6 hash seeds, and PDAG.to_dag on all their CPDAGs and random extendable PDAGs (partial: no proof of the "
